@@ -47,14 +47,17 @@ GOOD = {
     'token': 'v', 'normalizedString': 'v', 'hexBinary': '00', 'int': '1', 'long': '1', 'short': '1', 'decimal': '1',
 }
 BAD = {
-    'dateTime': ['yesterday', '2031-13-45T99:99:99Z', '2031-03-04'],
-    'boolean': ['maybe', 'yes', '2'],
-    'integer': ['one', '1.5'],
-    'nonNegativeInteger': ['-1', 'one'],
-    'positiveInteger': ['0', '-1', 'one'],
-    'PositiveInteger': ['0', '-1', 'one'],
-    'unsignedShort': ['-1', '65536', 'one'],
-    'duration': ['1 hour', 'P', 'PT'],
+    # gross violations and near-misses of the lexical space (what the language's own converters let through:
+    # single-digit fields, an empty fraction, digit separators, digits of other scripts, other letter case)
+    'dateTime': ['yesterday', '2031-13-45T99:99:99Z', '2031-03-04', '2031-3-4T5:6:7Z', '2031-03-04T05:06:07.Z', '2031-03-04 05:06:07Z',
+                 '\u0662\u0660\u0663\u0661-03-04T05:06:07Z'],
+    'boolean': ['maybe', 'yes', '2', 'TRUE', 'True', 'fAlse'],
+    'integer': ['one', '1.5', '1_000', '\u0661\u0662', '0x10', '1e3'],
+    'nonNegativeInteger': ['-1', 'one', '1_0', '\u0661'],
+    'positiveInteger': ['0', '-1', 'one', '1_0', '\u0661'],
+    'PositiveInteger': ['0', '-1', 'one', '1_0', '\u0661'],
+    'unsignedShort': ['-1', '65536', 'one', '6_5', '\u0661'],
+    'duration': ['1 hour', 'P', 'PT', 'PT5', 'PT1,5S', 'P1S', 'P-1D', 'PT1H1D'],
 }
 
 
